@@ -477,9 +477,9 @@ func fixedPrograms() []*program {
 	{
 		// the documentation's statements, nested blocks, a later subroutine and a module included inside vcl_recv
 		g := &pgen{}
-		inner := &node{Kind: "if", Text: "if (req.http.M) {", Arms: []*arm{{Body: blk("if", "recv", 2, simpleE(g, "S03"), clean(0))}}}
+		inner := &node{Kind: "if", Text: "if (req.http.M) {", Arms: []*arm{{Body: blk("if", "recv", 2, simpleE(g, "S03"), simpleE(g, "S02"), simpleE(g, "S03"), clean(0))}}}
 		nest := &node{Kind: "if", Text: "if (req.http.N) {", Arms: []*arm{
-			{Body: blk("if", "recv", 1, simpleE(g, "S01"), inner, simpleE(g, "S08"))},
+			{Body: blk("if", "recv", 1, simpleE(g, "S01"), inner, simpleE(g, "S08"), simpleE(g, "S01"), clean(5))},
 			{Sep: `} else if ("lit") {`, Ent: catByID("H01"), Body: blk("if", "recv", 1, simpleE(g, "S02"))},
 			{Sep: "} else {", Body: blk("if", "recv", 1, simpleE(g, "S09"), clean(1))},
 		}}
@@ -530,7 +530,7 @@ func fixedPrograms() []*program {
 		recv := blk("sub", "recv", 0, simpleE(g, "S08"), nest, simpleE(g, "S06"), simpleE(g, "S07"), simpleE(g, "T04"), &node{Kind: "simple", Text: "call helper;"})
 		helper := blk("sub", "user", 0, simpleE(g, "S06"), simpleE(g, "S05"), simpleE(g, "S06"), simpleE(g, "S15"), clean(2))
 		deliver := blk("sub", "deliver", 0, simpleE(g, "S14"), simpleE(g, "S16"))
-		out = append(out, render(blk("file", "", 0, subDecl("helper", "", helper), subDecl("vcl_recv", "RECV", recv), subDecl("vcl_deliver", "DELIVER", deliver))))
+		out = append(out, render(blk("file", "", 0, rawTable("tabv"), subDecl("helper", "", helper), subDecl("vcl_recv", "RECV", recv), subDecl("vcl_deliver", "DELIVER", deliver))))
 	}
 	return out
 }
